@@ -4,6 +4,7 @@
 (*   ulist_new   ulist(raw)                                                                    *)
 (*   ulist_op    u + x, u | x, u - x, u & x      (x a single element or a list)                *)
 (*   minus, and  d - keys, d & keys              (d a dictattr, Dict or a subclass of either)  *)
+(*   minus_path, isub_path   d - (k1, .., kn) / x = d; x -= (k1, .., kn): delete a branch of nested mappings *)
 (*   select, multiget   d[[k1, ...]], d[k1, ...]                                               *)
 (*   plus, or    d + other, d | other                                                          *)
 (*   relabel     d.relabel(...): a blanket rule (none / prefix / suffix / dict or callable)     *)
@@ -98,6 +99,14 @@ Verdict(o) ==
             ELSE IF ~SameMap(o.out.items, AsFun(law)) THEN o.op \o "_keys_values"
             ELSE IF o.op = "minus" /\ KeySeq(o.out.items) # KeySeq(law) THEN "minus_keys_order"
             ELSE IF o.op = "minus" /\ o.keys_lhs # o.keys_rhs THEN "minus_keys_commute"      \* (d - k).keys() == d.keys() - k, both by the code
+            ELSE IF o.out.cls # o.d.cls THEN "class_not_preserved"
+            ELSE IF ~o.out.is_new THEN "not_a_new_mapping"
+            ELSE IF o.d_after # d THEN "d_modified" ELSE ""
+      [] o.op \in {"minus_path", "isub_path"} ->             \* d - path / x = d; x -= path  (Algebra.tla 2c)
+            LET d == o.d.items IN
+            IF ~(IsMapping(d) /\ PathOk(d, o.path)) THEN "bad_input"
+            ELSE IF ~IsMap(o.out) THEN o.op \o "_raised"
+            ELSE IF ~(IsMapping(o.out.items) /\ o.out.items = MinusPath(d, o.path)) THEN o.op \o "_tree"
             ELSE IF o.out.cls # o.d.cls THEN "class_not_preserved"
             ELSE IF ~o.out.is_new THEN "not_a_new_mapping"
             ELSE IF o.d_after # d THEN "d_modified" ELSE ""
